@@ -57,7 +57,9 @@ def _index_vars(fn, defs):
                         if isinstance(t, ast.Name):
                             out[t.id] = e
     for p in fn.params:
-        if p.endswith("_idx") and p not in out:
+        # a parameter is a chunk index if the body clamps C*(p+1) to a size;
+        # the caller decides (no HI template -> not an index)
+        if p not in ("self", "cls") and p not in out:
             out[p] = None
     return out
 
@@ -91,19 +93,25 @@ def _maximal_exprs(fn, name):
     return res
 
 
-def tiling_site(repo, col, ms, qn, expect_axes=3, require_count=True):
+def tiling_site(repo, col, ms, qn, expect_axes=3, require_count=True,
+                fn=None):
     rule = "E-TILE"
-    fn = repo.func(ms, qn)
+    fn = fn or repo.func(ms, qn)
     defs = local_defs(fn.node)
     idx = _index_vars(fn, defs)
-    from .dataflow import single_defs
+    from .dataflow import single_defs, alias_table
     subst_table = single_defs(fn.node, defs)
+    aliases = alias_table(fn.node, defs)
+    # loop indices themselves are never aliases
+    for k_ in list(aliases):
+        if k_ in idx:
+            aliases.pop(k_)
     found_axes = 0
     for i, extent in sorted(idx.items()):
         count = None
         if extent is not None:
             try:
-                c = canon(extent, subst_table)
+                c = canon(extent, dict(subst_table, **aliases))
             except NotInt:
                 c = None
             m = CEIL_RE.match(c) if c else None
@@ -112,7 +120,7 @@ def tiling_site(repo, col, ms, qn, expect_axes=3, require_count=True):
         los, his, offs = [], [], []
         for e in _maximal_exprs(fn, i):
             try:
-                p = _fold_ceildiv(poly(e))
+                p = _fold_ceildiv(poly(e, aliases))
             except NotInt:
                 continue
             s = pstr(p)
@@ -194,11 +202,11 @@ def tiling_site(repo, col, ms, qn, expect_axes=3, require_count=True):
     return found_axes
 
 
-def coords_tuple(repo, col, ms, qn):
+def coords_tuple(repo, col, ms, qn, fn=None):
     """The six values handed to write_chunk / read_chunk are
     (LOx, HIx, LOy, HIy, LOz, HIz) of the site's own tiling."""
     rule = "E-TILE.coords"
-    fn = repo.func(ms, qn)
+    fn = fn or repo.func(ms, qn)
     defs = local_defs(fn.node)
     n = 0
     for c in calls_in(fn.node):
@@ -415,6 +423,37 @@ def _received_as(top, comp_fn, name):
     return out or None
 
 
+def _bytes_formula(expr, defs, src_kind):
+    """expr is a product of exactly: prod(<size>), <dtype>.itemsize and the
+    channel count (a name bound to info['num_channels'])."""
+    factors = []
+
+    def flat(e):
+        if isinstance(e, ast.BinOp) and isinstance(e.op, ast.Mult):
+            flat(e.left)
+            flat(e.right)
+        else:
+            factors.append(e)
+    flat(expr)
+    if len(factors) != 3:
+        return False
+    kinds = []
+    for f in factors:
+        t = norm(f)
+        if isinstance(f, ast.Call) and (call_name(f) or "").endswith("prod") \
+                and f.args and src_kind(f.args[0]) == "size":
+            kinds.append("voxels")
+        elif isinstance(f, ast.Attribute) and f.attr == "itemsize":
+            kinds.append("itemsize")
+        elif "['num_channels']" in t or (isinstance(f, ast.Name) and any(
+                d.value is not None and "['num_channels']" in norm(d.value)
+                for d in defs.get(f.id, []))):
+            kinds.append("channels")
+        else:
+            kinds.append("?")
+    return sorted(kinds) == ["channels", "itemsize", "voxels"]
+
+
 def count_formula(repo, col):
     """scale_stats: chunk count = prod ceil(size / chunk size) per axis;
     bytes = prod(size) * itemsize * channels."""
@@ -430,7 +469,32 @@ def count_formula(repo, col):
     node = comp
     und = False
     g = comp.generators[0]
-    srcs = [norm(a) for a in g.iter.args]
+
+    def _src_kind(a):
+        # 'size' / 'chunk_size' by where the value comes from, not its name
+        t = norm(a)
+        if "['size']" in t:
+            return "size"
+        if "['chunk_sizes']" in t:
+            return "chunk_size"
+        if isinstance(a, ast.Name):
+            kinds = set()
+            for d in defs.get(a.id, []):
+                if d.value is None:
+                    continue
+                dt = norm(d.value)
+                if "['chunk_sizes']" in dt:
+                    kinds.add("chunk_size")
+                elif "['size']" in dt:
+                    kinds.add("size")
+                else:
+                    kinds.add("?")
+            if len(kinds) == 1:
+                return kinds.pop()
+            if not kinds and a.id in fn.params:
+                return {"size": "size", "chunk_size": "chunk_size"}.get(a.id, "?")
+        return "?"
+    srcs = [_src_kind(a) for a in g.iter.args]
     tn = [t.id for t in g.target.elts if isinstance(t, ast.Name)]
     try:
         c = canon(comp.elt)
@@ -439,6 +503,8 @@ def count_formula(repo, col):
             s_src = srcs[tn.index(m.group(1))] if m.group(1) in tn else None
             c_src = srcs[tn.index(m.group(2))] if m.group(2) in tn else None
             ok_count = s_src == "size" and c_src == "chunk_size"
+            if "?" in (s_src, c_src):
+                und = True
     except NotInt:
         und = True
     col.add(rule, fn, "chunks per axis = ceil(size / chunk_size)",
@@ -468,16 +534,13 @@ def count_formula(repo, col):
     saw_bytes = False
     for name, ds in defs.items():
         for d in ds:
-            if d.value is None or "prod(size)" not in norm(d.value):
+            if d.value is None or not any(
+                    isinstance(c_, ast.Call) and (call_name(c_) or "").endswith(
+                        "prod") and c_.args and _src_kind(c_.args[0]) == "size"
+                    for c_ in walk_local(d.value)):
                 continue
             saw_bytes = True
-            try:
-                p = poly(d.value)
-                okb = pstr(p) in ("dtype.itemsize*np.prod(size)*num_channels",
-                                  "dtype.itemsize*num_channels*np.prod(size)")
-            except NotInt:
-                okb = norm(d.value) == \
-                    "np.prod(size) * dtype.itemsize * num_channels"
+            okb = _bytes_formula(d.value, defs, _src_kind)
             if okb:
                 byte_names.add(name)
             else:
@@ -620,9 +683,9 @@ def octants(repo, col):
                 ok = False
                 why.append("axis slot %d is the %s half but the old-chunk "
                            "index offset is +%d" % (k, side, plus1))
-            guarded = any(norm(a.left) == "%s.shape[%d]" % (buf, k)
-                          and a.op == ">" and norm(a.right) == h
-                          for a in gatoms)
+            guarded = any(norm(b.left) == "%s.shape[%d]" % (buf, k)
+                          and b.op == ">" and norm(b.right) == h
+                          for a in gatoms for b in (a, a.flipped()))
             if (side == "hi") != guarded:
                 ok = False
                 why.append("axis slot %d: %s half %s a guard `%s.shape[%d] > "
@@ -657,3 +720,19 @@ def octants(repo, col):
     col.add(rule, fn, "write_chunk(%s) after all copies" % buf, okw,
             "" if okw else "the assembled buffer is not written as the last "
             "step of the loop body")
+
+
+def pyramid_sites(repo):
+    """Functions of the pyramid computation that tile a scale: the driver and
+    every local helper / nested function / partial target it reaches whose
+    body holds a clamp template min(C*(i+1), S)."""
+    from .core import helper_closure
+    top = repo.func("dyadic_pyramid", "compute_dyadic_downscaling")
+    out = []
+    for h in helper_closure(top, depth=3):
+        if h is top:
+            continue
+        t = norm(h.node)
+        if "min(" in t and "+ 1" in t:
+            out.append(h)
+    return top, out
